@@ -414,11 +414,17 @@ def C05():
         u = F.load(n)
         chk.units.append(n)
         total += r_reg.run_jobs(chk, u, "R-REG.op", _ops_jobs("operator_suite", nmax))
+        # the value: every expression as the exact linear map it denotes (exact scalar, exact factor coefficients,
+        # re-expansion weights from the grid) on a tensor of offsets and widths
+        total += r_reg.run_jobs(chk, u, "R-REG.kernel", [("bsv.r_reg_ops", "kernel_suite", dict(ns=[n_], parts=("ops",),
+                                                                                                 orders=(A,)))
+                                                         for n_ in (2, 3) for A in (0, 1, 2, 3)])
         total += r_reg.run_jobs(chk, u, "R-REG.const", [("bsv.r_reg_ops", "constant_table_suite", dict(nmax=9))])
     chk.note("regions_evaluated", total)
     chk.note("grid_size_bound", nmax)
     chk.exhaustive = True
     chk.floor("R-REG.op", chk.rules["R-REG.op"]["instances"], 35, "operator cases")
+    chk.assume(KERNEL_ASSUME)
     from . import r_small
     nd = r_small.r_div(chk, _lib_units(["cases_off"]))
     chk.floor("R-DIV", nd, 4, "functions using a scalar of type S")
@@ -449,9 +455,13 @@ def C06():
         total += r_reg.run_jobs(chk, u, "R-REG.bf", _ops_jobs("bilinear_suite", nmax))
         total += r_reg.run_jobs(chk, u, "R-REG.kernel", _kernel_jobs(
             ("bf",), order_pairs=((0, 0), (0, 1), (1, 0), (1, 1), (2, 1), (0, 3), (2, 2))))
+        total += r_reg.run_jobs(chk, u, "R-REG.kernel", [
+            ("bsv.r_reg_ops", "kernel_suite", dict(ns=[n_], parts=("bfops",), order_pairs=(pr,)))
+            for n_ in (2, 3) for pr in ((1, 1), (2, 1), (0, 3), (2, 2))])
     chk.note("regions_evaluated", total)
     chk.exhaustive = True
     chk.floor("R-REG.bf", chk.rules["R-REG.bf"]["instances"], 6, "bilinear-form cases")
+    chk.assume(KERNEL_ASSUME)
     return chk
 
 
@@ -475,9 +485,13 @@ def C07():
         chk.units.append(n)
         total += r_reg.run_jobs(chk, u, "R-REG.lf", _ops_jobs("linear_suite", nmax))
         total += r_reg.run_jobs(chk, u, "R-REG.kernel", _kernel_jobs(("lf",)))
+        total += r_reg.run_jobs(chk, u, "R-REG.kernel", [
+            ("bsv.r_reg_ops", "kernel_suite", dict(ns=[n_], parts=("lfops",), orders=(A,)))
+            for n_ in (2, 3) for A in (0, 1, 2, 3)])
     chk.note("regions_evaluated", total)
     chk.exhaustive = True
     chk.floor("R-REG.lf", chk.rules["R-REG.lf"]["instances"], 5, "linear-form cases")
+    chk.assume(KERNEL_ASSUME)
     return chk
 
 
